@@ -387,11 +387,15 @@ func seqHistory(st LinStorage, blobs []LinBlob, have uint, steps int, readsOnly 
 			have &^= 1 << uint(i)
 		}
 	}
-	if sf, ok := st.(blob.SubFetcher); ok {
+	if sf, ok := st.(blob.SubFetcher); ok && !NoSweep {
 		SubFetchSweep(sf, blobs, have)
 	}
 	return have
 }
+
+// NoSweep switches the ranged-fetch sweep at the end of SeqHistory off (stores whose ranged
+// fetch does not depend on the history run it once in an entry of its own).
+var NoSweep bool
 
 // SubFetchSweep performs every ranged fetch (offset 0..size+1, length 0, 1 and size+1) of every
 // blob against the reference map: exactly the requested bytes of a stored blob, clamped to its
